@@ -179,6 +179,10 @@ class VariableBoundVisitor(ModelVisitor):
             # Check whether the expressions involve *any* random variables            
             lhs_is_nonrand = IsNonRandExprVisitor().is_nonrand(e.lhs)
             rhs_is_nonrand = IsNonRandExprVisitor().is_nonrand(e.rhs)
+            
+            # ... and have a value that val() can supply
+            lhs_is_nonrand &= self._is_plain_value(e.lhs)
+            rhs_is_nonrand &= self._is_plain_value(e.rhs)
 
             if lhs_fm is not None and lhs_fm in self.bound_m.keys():                
                 lhs_bounds = self.bound_m[lhs_fm]
@@ -229,6 +233,15 @@ class VariableBoundVisitor(ModelVisitor):
             if propagator is not None:
                 self.propagators.append(propagator)
                 
+    @staticmethod
+    def _is_plain_value(e):
+        # The value of a compound expression depends on the width and sign 
+        # of the comparison it is an operand of (wrap-around, sign extension, 
+        # truncating division, complement), which val() does not model. 
+        # Bounds are only inferred from operands whose value is their own.
+        return isinstance(e, (ExprLiteralModel, ExprFieldRefModel, 
+                              ExprArraySubscriptModel))
+
     def lhsvar_rhsvar_propagator(self,
                     lhs_bounds,
                     op,
@@ -377,6 +390,9 @@ class VariableBoundVisitor(ModelVisitor):
                             is_nre = False
                         else:
                             is_nre &= is_nre_v.is_nonrand(r)
+                            
+                        for b in ([r.lhs, r.rhs] if isinstance(r, ExprRangeModel) else (r if isinstance(r, list) else [r])):
+                            is_nre &= self._is_plain_value(b)
                             
                         # An unsigned bound makes the comparison unsigned, which
                         # does not order the values of a signed variable
